@@ -115,6 +115,8 @@ def mon_slow(sc, r):
     out = []
     V = lambda kind, what, **kw: out.append(mix.viol(sc, r, kind, what, kw))
     if r.hung: V("hang", "nextest did not exit"); return out
+    any_hang = any(t["dur"] is None for t in sc.meta["tests"])
+    if r.exit != (100 if any_hang else 0): V("exit", f"exit status {r.exit}; {'a test was terminated for exceeding its slow-timeout (a timed-out test is a failed test whatever its process exit code), expected 100' if any_hang else 'every test finished in time and passed, expected 0'}")
     for t in sc.meta["tests"]:
         key = key_of(t["bin"], t["pkg"], t["name"]); P, K, G = t["P"], t["K"], t["G"]
         ps = tprocs(r, t["bin"], t["name"])
@@ -489,10 +491,16 @@ def mon_stop(sc, r):
 def gen_cancel(seed, k):
     rng = random.Random(seed * 4447 + k)
     sc = e2e.Scenario(f"cancel{k}")
-    variant = ["cancel-then-delay", "delay-then-cancel", "timeout-counts", "max-fail-2", "no-fail-fast"][k % 5]
+    variant = ["cancel-then-delay", "delay-then-cancel", "timeout-counts", "max-fail-2", "no-fail-fast", "leak-window"][k % 6]
     tests = []; extra = ""; threads = 4; ff = "true"; P, K, G = 60000, None, 300
-    delay = 3000
-    if variant == "cancel-then-delay":
+    delay = 3000; leak = 200
+    if variant == "leak-window":
+        # A has exited 0 but a descendant keeps its pipes open well past the leak timeout; B's failure (fail-fast) arrives
+        # while nextest is still waiting for A's pipes: A is nevertheless a leaky pass, and must be reported as such
+        leak = 1200; b_ms = rng.choice([300, 500])
+        sc.test("t_one", "a_leaky", ["child:4000", "exit:0"]); tests.append({"bin": "t_one", "pkg": "alpha", "name": "a_leaky", "kind": "leaky"})
+        sc.test("t_two", "b_fail", [f"work:{b_ms}", "exit:1"]); tests.append({"bin": "t_two", "pkg": "alpha", "name": "b_fail", "kind": "fail"})
+    elif variant == "cancel-then-delay":
         # A is still running when B's failure cancels the run; A then fails: its retry delay must not be sat out
         a_ms = rng.choice([500, 800]); b_ms = rng.choice([100, 250])
         sc.test("t_one", "a_retry", {"1": [f"work:{a_ms}", "exit:1"], "2": ["exit:0"]}); tests.append({"bin": "t_one", "pkg": "alpha", "name": "a_retry", "kind": "retry-late"})
@@ -517,7 +525,7 @@ def gen_cancel(seed, k):
         threads = 1; ff = "false"
         for i, (b, pkg) in enumerate([("t_one", "alpha"), ("t_two", "alpha"), ("t_three", "beta")]):
             n = f"t{i}_fail"; sc.test(b, n, ["exit:1"]); tests.append({"bin": b, "pkg": pkg, "name": n, "kind": "all-run"})
-    sc.config = base_config(P, K, G, extra, threads=threads, fail_fast="true" if ff == "true" else ff, leak=200)
+    sc.config = base_config(P, K, G, extra, threads=threads, fail_fast="true" if ff == "true" else ff, leak=leak)
     sc.timeout_s = 30
     sc.meta = {"tests": tests, "family": "cancel", "variant": variant, "delay": delay}
     return sc
@@ -548,6 +556,10 @@ def mon_cancel(sc, r):
         if len(a) != 1: V("retry-after-cancel", f"[{variant}] a_retry ran {len(a)} attempts; its retry must not start once the run is cancelled")
         over = ms(r.t1 - last_end)
         if over > SLACK_HI + 300: V("sat-out-delay", f"[{variant}] the run ended {over:.0f} ms after the last running test had ended (retry delay {m['delay']} ms): a cancelled run must not sit out retry delays")
+    if variant == "leak-window":
+        fin = finished(r, key_of("t_one", "alpha", "a_leaky"))
+        if not fin: V("result", f"[{variant}] a_leaky has no final result")
+        elif fin[-1][1] != "L": V("result", f"[{variant}] a_leaky exited 0 while a descendant held its output pipes for 4000 ms (leak timeout 1200 ms); it is reported {fin[-1][1]}, expected a leaky pass (L) — the cancellation arrived while its pipes were being watched")
     if variant == "timeout-counts":
         for t in m["tests"]:
             if t["kind"] == "never" and tprocs(r, t["bin"], t["name"]): V("start-after-cancel", f"[{variant}] {t['name']} ran although the first test's timeout is the failure that triggers fail-fast")
